@@ -13,7 +13,11 @@ use std::sync::Mutex;
 use std::time::{Duration, Instant, SystemTime, UNIX_EPOCH};
 use tokio::io::AsyncWriteExt;
 
-const SECRET: &str = "c14-secret";
+/// the configured secret has structure (lines, blanks, a trailing line break, as a secret file written by a
+/// shell command has): only the whole of it is the key
+const SECRET: &str = "c14-secret line one\nc14 second,line;three \n";
+/// pieces and spellings of the configured secret that must not work as keys
+const SECRET_PARTS: [&str; 7] = ["c14-secret line one", "c14 second,line;three ", "", "c14-secret", "c14-secret line one\nc14 second,line;three", "c14-secret line one\n", "\n"];
 const ALLOWANCE: Duration = Duration::from_millis(1500);
 
 #[derive(Clone, Debug, Serialize, Deserialize, PartialEq)]
@@ -187,6 +191,9 @@ async fn cookie_cases(addr: SocketAddr, conf: &Conf, out: &Mutex<Vec<Viol>>) -> 
     } else {
         vec![("fresh", e - 2, SECRET, true), ("expired", e + 2, SECRET, false), ("other-secret", 0, "another-secret", false), ("very-old", e + 100_000, SECRET, false)]
     };
+    for part in SECRET_PARTS {
+        cases.push(("signed-with-a-part-of-the-secret", e.min(5) - 1, part, false));
+    }
     // a history: a genuine cookie is honoured, then its tag comes back in front of another body
     cases.push(("genuine-before-replay", e.min(5) - 1, SECRET, true));
     cases.push(("replayed-tag-other-body", e.min(5) - 1, SECRET, false));
@@ -226,7 +233,7 @@ async fn cookie_cases(addr: SocketAddr, conf: &Conf, out: &Mutex<Vec<Viol>>) -> 
         if flag.is_none() || accepted != must_accept {
             out.lock().unwrap().push((
                 if flag.is_none() { format!("cookie-{name}-login-failed") } else { format!("cookie-{name}-{}", if accepted { "accepted" } else { "not-accepted" }) },
-                format!("auth_cookie_expiry = {e}: a cookie aged {age} s signed with {} was {} (flag {flag:?}, {:?})", if secret == SECRET { "the configured secret" } else { "another secret" }, if accepted { "accepted" } else { "not accepted" }, o.error),
+                format!("auth_cookie_expiry = {e}: a cookie aged {age} s signed with {} was {} (flag {flag:?}, {:?})", if secret == SECRET { "the configured secret".to_string() } else { format!("another secret ({secret:?})") }, if accepted { "accepted" } else { "not accepted" }, o.error),
                 json!({"conf": conf, "case": "cookie", "name": name}),
             ));
         }
@@ -465,7 +472,7 @@ pub fn run(cli: Cli) -> ! {
     rep.set("status_never_read_bytes_found_after_deadline", json!(totals));
     rep.set("status_answer_bytes", json!(BIG_STATUS));
     rep.set("exhaustive", json!(true));
-    rep.set("rule", json!("one child process running passage::start(config) per configuration (max_packet_length, auth_cookie_expiry, timeout); per configuration: handshake frames of declared length max-1, max, max+1, max+50; cookies aged expiry-2 / expiry+2 / very old / signed with another secret, a genuine cookie followed by its tag in front of another body, and (timeout >= 4 s) a cookie with one second left that the client presents 2.2 s later; client behaviours silent, one byte every 100 ms, stopping mid-frame and after each protocol step, and (with PROXY protocol configured) a valid header sent only after 3/4 of the timeout, each required to be disconnected by timeout + 1.5 s; with a 24 MiB status answer, a client that requests it and reads nothing until timeout + 1.5 s must then find a truncated answer and the end of the stream; the process is stopped with SIGINT and must exit cleanly. Each connection is a distinct case."));
+    rep.set("rule", json!("one child process running passage::start(config) per configuration (max_packet_length, auth_cookie_expiry, timeout); per configuration: handshake frames of declared length max-1, max, max+1, max+50; cookies aged expiry-2 / expiry+2 / very old / signed with another secret / signed with each of 7 pieces of the configured secret (its lines, the empty key, the secret without its trailing line break), a genuine cookie followed by its tag in front of another body, and (timeout >= 4 s) a cookie with one second left that the client presents 2.2 s later; client behaviours silent, one byte every 100 ms, stopping mid-frame and after each protocol step, and (with PROXY protocol configured) a valid header sent only after 3/4 of the timeout, each required to be disconnected by timeout + 1.5 s; with a 24 MiB status answer, a client that requests it and reads nothing until timeout + 1.5 s must then find a truncated answer and the end of the stream; the process is stopped with SIGINT and must exit cleanly. Each connection is a distinct case."));
     rep.sample(json!({"conf": confs[0], "case": "frame-length", "len": confs[0].max_packet_length + 1, "expect": "closed unanswered"}));
     rep.sample(json!({"conf": confs[confs.len() - 1], "case": "deadline", "behaviour": "stop-after-encryption-request", "expect": "closed by timeout + 1.5 s"}));
     rep.assume("real time: 'closed too late' uses a 1.5 s allowance; closing earlier is never a violation");
